@@ -25,6 +25,7 @@ From Coq Require Import PrimFloat.
 From Coq Require Import ZArith List Bool Reals Lra Permutation Sorted.
 From BZ Require Import Base.Ops Gen.Point Gen.Line Gen.Quad Gen.Cubic Gen.Sample Hand.Sample Hand.Shoelace Proofs.C16 Proofs.C17 Proofs.Bridge2.
 Import ListNotations.
+From BZ Require Gen.PathOps Proofs.Bridge5.
 Open Scope R_scope.
 
 Theorem C17_curve_flatten_spec :
@@ -56,6 +57,12 @@ Proof. exact flatten_nonvacuous. Qed.
 Theorem C17_seg_flatten_is_generated :
   forall (T : Type) (O : Ops T), lit_ok O -> forall cap (s : segment T * option (segment T)) (degree : T) fuel, eqb O degree (zero O) = false -> eqb O (dvd O (seg_length O (fst s)) degree) (zero O) = false -> (fuel_of O cap (seg_length O (fst s)) + 3 <= fuel)%nat -> (fuel_of O cap (dvd O (seg_length O (fst s)) degree) + 3 <= fuel)%nat -> finished (seg_flatten O cap s degree) -> seg_flatten O cap s degree = res_of (gen_seg_flatten O fuel s degree).
 Proof. exact @seg_flatten_gen. Qed.
+Theorem C17_Path_flatten_fuel_gen :
+  forall (T : Type) (O : Ops T) (fuel : nat) (segs : list (segment T * option (segment T))) (closed : bool) (degree : T), res_of (PathOps.Path_flatten O fuel (segs, closed) degree) = bind (mapM (fun s : segment T * option (segment T) => res_of (gen_seg_flatten O fuel s degree)) segs) (fun ls : list (list (seg2 T * option (segment T))) => Ok (concat ls, closed)).
+Proof. exact @Bridge5.Path_flatten_fuel_gen. Qed.
+Theorem C17_path_flatten_gen :
+  forall (T : Type) (O : Ops T), lit_ok O -> forall (cap : nat) (segs : list (segment T * option (segment T))) (closed : bool) (degree : T) (fuel : nat), eqb O degree (zero O) = false -> Forall (Bridge5.flatten_ok O cap fuel degree) segs -> path_flatten O cap segs closed degree = res_of (PathOps.Path_flatten O fuel (segs, closed) degree).
+Proof. exact @Bridge5.path_flatten_gen. Qed.
 
 Print Assumptions C17_curve_flatten_spec.
 Print Assumptions C17_quad_flatten_uniform.
@@ -66,3 +73,5 @@ Print Assumptions C17_path_flatten_spec.
 Print Assumptions C17_edge_count_refuted.
 Print Assumptions C17_flatten_nonvacuous.
 Print Assumptions C17_seg_flatten_is_generated.
+Print Assumptions C17_Path_flatten_fuel_gen.
+Print Assumptions C17_path_flatten_gen.
